@@ -63,7 +63,18 @@ def py_copies(k, male_ref, female, kl):
 # running the code
 
 
-def make_cna(rows):
+def index_labels(n, mode):
+    """Row labels of the input table: 'default' 0..n-1; 'gaps' increasing with holes (what a boolean-mask
+    subset such as arr[mask] / drop_low_coverage() leaves); 'permuted' a fixed permutation of 0..n-1 (what
+    sort() leaves on a table built in another order).  The property is about rows, never about labels."""
+    if mode == 'gaps':
+        return [3 * i + (i % 2) + 2 for i in range(n)]
+    if mode == 'permuted':
+        return [(7 * i + 3) % n if math.gcd(7, n) == 1 else (n - 1 - i) for i in range(n)]
+    return list(range(n))
+
+
+def make_cna(rows, index_mode='default'):
     from cnvlib.cnary import CopyNumArray
     d = pd.DataFrame({
         'chromosome': [r['chrom'] for r in rows],
@@ -74,12 +85,14 @@ def make_cna(rows):
         'probes': np.array([1] * len(rows), dtype=np.int64),
         'weight': np.array([1.0] * len(rows), dtype=np.float64),
     })
+    if index_mode != 'default':
+        d.index = index_labels(len(rows), index_mode)
     return CopyNumArray(d, {'sample_id': 'gen'})
 
 
 def run_code(cfg, rows):
     from cnvlib import call
-    arr = make_cna(rows)
+    arr = make_cna(rows, cfg.get('index', 'default'))
     kw = dict(method='clonal', ploidy=cfg['ploidy'], is_haploid_x_reference=cfg['hapx'],
               is_sample_female=cfg['female'])
     if cfg['purity'] is not None:
@@ -470,7 +483,7 @@ def corpus_tables():
 
 def run(ck, scratch):
     ck.rule = ('one do_call(method=clonal) per configuration (ploidy 1..6 x haploid/diploid-X reference x female/male sample x '
-               'chr/plain naming x build None/grch37/grch38 x purities: None, 1.0, 0.999, 7 fixed in (0,1), random) on a table '
+               'chr/plain naming x row labels default / with gaps / permuted x build None/grch37/grch38 x purities: None, 1.0, 0.999, 7 fixed in (0,1), random) on a table '
                'holding, for every class instance (2 autosomes, X, Y, bins inside / exactly on / one base off / straddling / '
                'between each PAR), a row per n in 0..12 whose log2 is computed from the property\'s (r, x) table, plus rows with '
                'random log2 in [-30,30], fixed values and values 1e-6/1e-4 either side of every rounding and clipping boundary; '
@@ -500,7 +513,8 @@ def run(ck, scratch):
                     for p in purities:
                         builds = [None, 'grch37', 'grch38'] if (p is not None and p < 1.0) else [None, rng.choice(['grch37', 'grch38'])]
                         for build in builds:
-                            cfg = dict(ploidy=k, purity=p, hapx=hapx, female=female, build=build, style=style)
+                            cfg = dict(ploidy=k, purity=p, hapx=hapx, female=female, build=build, style=style,
+                                       index=('default', 'gaps', 'permuted')[len(tables) % 3])
                             tables.append((cfg, gen_table(rng, cfg, n_values, n_random=10 if quick else 30)))
     ck.extra['grid_tables'] = len(tables)
     # in chunks, to bound memory and give the model batches a sensible size
